@@ -137,6 +137,8 @@ def corpus():
 def run(ctx, bt):
     n = ctx.scale(140, 1500)
     run_engine_protocol(ctx, bt, n, [Monitor(ctx)], FOOT_FIELDS, None, corr_name="step[C01]", corpus=corpus())
+    from ..runs_run import run_steps_protocol
+    run_steps_protocol(ctx, bt, ctx.scale(14, 300), FOOT_FIELDS, "run-steps[C01]")
 
 
 def search(ctx, bt):
